@@ -554,6 +554,37 @@ fn shell_level(ctx: &Ctx, n: usize) {
                     ],
                 ));
             }
+            // a trim pattern that begins with the *other* trim symbol: `${v#%*}` is the shortest-prefix
+            // trim by the pattern `%*`, not a longest-prefix trim (and likewise `${w%#*}`)
+            {
+                let tail = *rng.pick(&["*", "", "?", "a", "a*", "?*"]);
+                let tv = rng.pick(&["%a%b%", "%", "%%a", "a%b", "%ab"]).to_string();
+                let tw = rng.pick(&["#a#b#", "#", "a##", "a#b", "ab#"]).to_string();
+                let pat = |sym: char| -> Vec<m::At> {
+                    let mut p = vec![PC::N(sym)];
+                    p.extend(tail.chars().map(PC::N));
+                    match m::parse(&p) {
+                        Parsed::Ok(a) => a,
+                        _ => unreachable!("plain patterns are well defined"),
+                    }
+                };
+                let (pa, ha) = (pat('%'), pat('#'));
+                script.push_str(&format!(
+                    "v={}; w={}\nprobe trimx \"${{v#%{tail}}}\" \"${{v##%{tail}}}\" \"${{w%#{tail}}}\" \"${{w%%#{tail}}}\"\n",
+                    sh_quote(&tv),
+                    sh_quote(&tw)
+                ));
+                expect.push((
+                    format!("trims of {tv:?} by the pattern %{tail} (prefix) and of {tw:?} by #{tail} (suffix)"),
+                    vec![
+                        "trimx".into(),
+                        m::trim(&pa, &tv, Trim::PrefixShortest),
+                        m::trim(&pa, &tv, Trim::PrefixLongest),
+                        m::trim(&ha, &tw, Trim::SuffixShortest),
+                        m::trim(&ha, &tw, Trim::SuffixLongest),
+                    ],
+                ));
+            }
             let out = vsh::run_script(&script, Strategy::Fifo);
             ctx.evals(expect.len());
             if out.events.len() != expect.len() {
